@@ -457,6 +457,7 @@ def r6(repo, res):
         ("two alternates 1/2", [vcf_record(106, "C", ["A", "T"], (1, 2))], None, {(106, "C>A"): 10, (106, "C>T"): 10}, {106: 0}),
         ("second alternate 0/2", [vcf_record(106, "C", ["A", "T"], (0, 2))], None, {(106, "C>T"): 10}, {106: 10}),
         ("REF differs from the gene reference", [vcf_record(107, "G", ["T"], (0, 1))], None, {(107, "A>G"): 10, (107, "A>T"): 10}, {107: 0}),
+        ("REF differs from the gene reference, homozygous for it", [vcf_record(107, "G", ["T"], (0, 0))], None, {(107, "A>G"): 20}, {107: 0}),
         ("ALT equals the gene reference", [vcf_record(107, "G", ["A"], (0, 1))], None, {(107, "A>G"): 10}, {107: 10}),
         ("deletion whose record REF differs from the gene reference", [vcf_record(103, "TAG", ["T"], (0, 1))], None, {(104, "delTG"): 10}, {104: 10}),
         ("half-missing genotype", [vcf_record(102, "G", ["T"], (None, 1))], None, {}, {}),
